@@ -85,6 +85,19 @@ pub fn new_store(page_size: usize) -> MemStore {
     s
 }
 
+/// A store that is brand new: not even the salt object exists (the first client creates it).
+pub fn new_store_unsalted(page_size: usize) -> MemStore {
+    taskchampion::server::verif::enable_key_memo(true);
+    MemStore::new(page_size, real_now())
+}
+
+/// Like [`client`], but the requests of the constructor (salt lookup / creation) pass the gate too.
+pub async fn client_gated(store: &MemStore, id: usize, gate: Option<Arc<dyn Gate>>, draw: u8) -> Result<VerifCloudServer, String> {
+    let mut c = VerifCloudServer::new_gated(store.clone(), id, SECRET.to_vec(), gate).await.map_err(|e| format!("{e:#}"))?;
+    c.set_draws(vec![], Some(draw));
+    Ok(c)
+}
+
 /// A client whose random draws are fixed (255 = never clean up, urgency None when a snapshot
 /// exists).
 pub async fn client(store: &MemStore, id: usize, gate: Option<Arc<dyn Gate>>, draw: u8) -> VerifCloudServer {
